@@ -93,8 +93,10 @@ func c06Topology(t int) [][]int {
 		return [][]int{{}, {0}}
 	case 1: // A <- B <- C (C imports only B; facts are transitive)
 		return [][]int{{}, {0}, {0, 1}}
-	default: // diamond A <- {B, C} <- D
+	case 2: // diamond A <- {B, C} <- D
 		return [][]int{{}, {0}, {0}, {0, 1, 2}}
+	default: // fan: base A <- three siblings {B, C, D} <- top E
+		return [][]int{{}, {0}, {0}, {0}, {0, 1, 2, 3}}
 	}
 }
 
@@ -157,7 +159,13 @@ func Harness_C06() {
 	for i := range w.expv {
 		w.expv[i] = ndBool("exported")
 	}
-	names := []string{"m/a", "m/b", "m/c", "m/d"}
+	names := []string{"m/a", "m/b", "m/c", "m/d", "m/e"}
+	// per-package bound on the number of constraints: NP unless NP<k> is given
+	maxOps := func(k int) int {
+		return ndParam("NP"+string(rune('0'+k)), NP)
+	}
+	// ONLYBASE=1: every package may mention the base package's sites only (keeps the fan topology small)
+	onlyBase := ndParam("ONLYBASE", 0) == 1
 	pkgs := make([]*types.Package, P)
 	facts := make([]*InferredMap, P) // decoded fact published by each package (nil if none)
 	recs := make([]*c05Rec, P)
@@ -192,14 +200,18 @@ func Harness_C06() {
 		recs[k] = &c05Rec{}
 		e := NewEngine(pass, recs[k])
 		e.ObserveUpstream()
-		n := ndChoice("n", NP+1)
+		n := ndChoice("n", maxOps(k)+1)
+		hi := S - 1
+		if onlyBase {
+			hi = SP - 1
+		}
 		for j := 0; j < n; j++ {
 			var op c05Op
 			op.kind = ndChoice("kind", KINDS)
-			op.a = ndInt("a", 0, S-1)
+			op.a = ndInt("a", 0, hi)
 			ndAssume(w.visible(k, deps[k], op.a))
 			if op.kind == c05Edge {
-				op.b = ndInt("b", 0, S-1)
+				op.b = ndInt("b", 0, hi)
 				ndAssume(w.visible(k, deps[k], op.b))
 			}
 			w.apply(e, tagBase+len(allOps), op)
@@ -392,4 +404,76 @@ func Harness_C06_Export() {
 	ndAssert("C06.E.verdict_on_exported_site_is_in_fact", okVerdict)
 	ndAssert("C06.E.flow_between_exported_sites_is_in_fact", okFlow)
 	ndAssert("C06.E.fact_invents_nothing", okNoInvent)
+}
+
+// Harness_C06_Chain: a long flow through unexported sites, cheaply. The package observes the
+// flows s0 -> s1 -> ... -> sL (a fixed chain shape) in a symbolically chosen ORDER; every site's
+// exported flag is symbolic. Whatever the order and the flags, every pair of exported sites must
+// stay connected in the published fact exactly as in the package's own graph.
+func Harness_C06_Chain() {
+	L := ndParam("L", 4) // number of flows; L+1 sites
+	c06PkgNames = map[*types.Package]string{}
+	w := &c06World{SP: L + 1, expv: make([]bool, L+1)}
+	for i := range w.expv {
+		w.expv[i] = ndBool("exported")
+	}
+	var exported *InferredMap
+	pass := analysishelper.NewEnhancedPass(&analysis.Pass{
+		Pkg:               c06NewPkg("m/a"),
+		AllPackageFacts:   func() []analysis.PackageFact { return nil },
+		ExportPackageFact: func(f analysis.Fact) { exported = f.(*InferredMap) },
+	})
+	e := NewEngine(pass, &c05Rec{})
+	e.ObserveUpstream()
+	// the L flows in any order
+	rest := make([]int, L)
+	for i := range rest {
+		rest[i] = i
+	}
+	var ops []c05Op
+	for len(rest) > 0 {
+		j := 0
+		if len(rest) > 1 {
+			j = ndChoice("next_flow", len(rest))
+		}
+		k := rest[j]
+		rest = append(rest[:j:j], rest[j+1:]...)
+		op := c05Op{kind: c05Edge, a: k, b: k + 1}
+		w.apply(e, len(ops), op)
+		ops = append(ops, op)
+	}
+	e.inferredMap.Export(pass)
+	var factOps []c05Op
+	if exported != nil {
+		fact := c06Codec(exported)
+		for _, p := range fact.mapping.Pairs {
+			o := p.Key.Position.Offset
+			if v, ok := p.Value.(*UndeterminedVal); ok {
+				for _, q := range v.Implicates.Pairs {
+					factOps = append(factOps, c05Op{kind: c05Edge, a: o, b: q.Key.Position.Offset})
+				}
+				for _, q := range v.Implicants.Pairs {
+					factOps = append(factOps, c05Op{kind: c05Edge, a: q.Key.Position.Offset, b: o})
+				}
+			}
+		}
+	}
+	ndObserveBool("published", exported != nil)
+	fref := c05Reference(L+1, factOps)
+	okFlow, okNoInvent := true, true
+	for i := 0; i <= L; i++ {
+		for j := 0; j <= L; j++ {
+			if i == j {
+				continue
+			}
+			inGraph := i < j // the chain connects i to every later site
+			if inGraph {
+				okFlow = ndAnd(okFlow, ndImplies(ndAnd(w.expv[i], w.expv[j]), fref.reach[i][j]))
+			} else {
+				okNoInvent = ndAnd(okNoInvent, ndNot(fref.reach[i][j]))
+			}
+		}
+	}
+	ndAssert("C06.C.flow_between_exported_sites_survives_any_number_of_unexported_sites", okFlow)
+	ndAssert("C06.C.fact_invents_no_flow", okNoInvent)
 }
